@@ -70,12 +70,12 @@ def classify_suite(res, prop):
 
 
 # ------------------------------------------------------------------------------------------------------ random drivers
-DRIVER_FAMILIES = ("mixin", "light", "node", "anynode", "symlink", "adv:alwayseq:mixin", "adv:falsy:light")
+DRIVER_FAMILIES = ("mixin", "light", "node", "anynode", "symlink", "adv:alwayseq:mixin", "node", "adv:falsy:light")
 
 
 def driver_plan(tier):
     if tier == "quick":
-        return dict(histories=8, steps=120, sizes=(8, 10, 12))
+        return dict(histories=16, steps=120, sizes=(6, 8, 10, 12))
     return dict(histories=64, steps=400, sizes=(8, 10, 12, 14))
 
 
@@ -115,7 +115,10 @@ def driver_verdicts(tier, repo=None):
             continue
         qevents.append(m2_query.event_of(q, q["id"]))
     qverdicts, qstats = judge.run_judge("TraceQuery", qevents, {"Nil": "Nil"}, tag="trace-driver-q") if qevents else ({}, None)
-    out = {"ops": ops, "verdicts": verdicts, "queries": queries, "qverdicts": qverdicts, "direct": direct, "tlc": [s for s in (stats, qstats) if s],
+    revents = [e for h in hists for e in h.get("resolver", [])]
+    rverdicts, rstats = judge.run_judge("TraceResolver", revents, {"Nil": "Nil"}, tag="trace-driver-r") if revents else ({}, None)
+    out = {"ops": ops, "verdicts": verdicts, "queries": queries, "qverdicts": qverdicts, "direct": direct, "tlc": [s for s in (stats, qstats, rstats) if s],
+           "revents": revents, "rverdicts": rverdicts,
            "plan": plan, "histories": len(hists)}
     _dmemo[key] = out
     return out
@@ -128,7 +131,7 @@ def classify_driver(res, prop):
     for s in out["tlc"]:
         res.add_tlc(dict(s, tag=s.get("tag", "trace-driver")), transitions=True)
     res.extra["driver_traces"] = {"histories": out["histories"], "steps_per_history": out["plan"]["steps"], "forest_sizes": list(out["plan"]["sizes"]),
-                                  "mutator_events": len(out["ops"]), "query_events": len(out["queries"]),
+                                  "mutator_events": len(out["ops"]), "query_events": len(out["queries"]), "resolver_events": len(out["revents"]),
                                   "mutator_events_explained_by_model": sum(1 for v in out["verdicts"].values() if v["explained"]),
                                   "families": list(DRIVER_FAMILIES)}
     if prop in ("C01", "C02", "C03", "C16"):
@@ -147,6 +150,15 @@ def classify_driver(res, prop):
                 res.drift += 1
             if not v["chained"]:
                 res.notes.append("event %s does not start in the state the previous event ended in" % i)
+    if prop in ("C07", "C08"):
+        mine = [e for e in out["revents"] if e["q"] == ("get" if prop == "C07" else "glob")]
+        res.trace_events += len(mine)
+        byr = {e["id"]: e for e in out["revents"]}
+        for i, v in out["rverdicts"].items():
+            if prop in v:
+                res.violation({"property": prop, "module": "trace-driver", "why": "Resolver call %s through a long-lived resolver on live, renamed nodes violates %s (judged by TLC)" % (i, prop),
+                               "event": byr[i]})
+        return
     qprops = {"nav": ("C04",), "common": ("C04",), "iters": ("C05", "C06"), "walk": ("C15",), "findall": ("C14",), "find": ("C14",)}
     mine = [q for q in out["queries"] if prop in qprops[q["query"]["q"]]]
     res.trace_events += len(mine)
